@@ -25,9 +25,10 @@ def draw_cost(rng, cls, objective="min"):
     if cls == "float":
         return rng.randrange(-40, 41) / 4.0
     if cls == "big":
-        # magnitudes beyond 2**31, exactly representable as float64
-        base = (1 << 31) + rng.randrange(0, 1 << 20) * 1024
-        return base if rng.random() < 0.7 else -base
+        # magnitudes beyond 2**31 with *small* differences between entries (near-ties at huge
+        # magnitude), exactly representable as float64 even when a dozen of them are summed
+        base = rng.choice([1 << 31, 1 << 33, 10 ** 10]) + rng.randrange(0, 10)
+        return base if rng.random() < 0.8 else -base
     if cls == "inf":
         if rng.random() < 0.25:
             return INF if objective == "min" else -INF
